@@ -147,6 +147,25 @@ def check(ctx, rep):
     _sso6(ctx, rep, "R06k", _Eff6(prog, ctx.resolver), render_funcs, sequential=True)
     if len(rep.obligations) == n_before_:
         rep.ok("R06k", f"no module- or class-level state is written while entries are rendered [{len(render_funcs)} functions]", "pygopherd/protocols", key="R06k|none")
+    rep.rule("R06l", "what a program run for a request writes reaches the client byte for byte, over TLS as over a plain connection: no subprocess on the "
+             "request path is run in text mode (encoding=, errors=, text=, universal_newlines=), which translates line ends", floor=1)
+    n_sub = 0
+    for f_ in prog.all_functions():
+        if not f_.module.name.startswith("pygopherd.handlers"):
+            continue
+        for c_ in ast.walk(f_.node):
+            if isinstance(c_, ast.Call) and (dotted(c_.func) or "").startswith("subprocess.") and (dotted(c_.func) or "").split(".")[-1] in (
+                    "run", "Popen", "check_output", "call", "check_call", "getoutput", "getstatusoutput"):
+                n_sub += 1
+                textual = [k.arg for k in c_.keywords if k.arg in ("encoding", "errors", "text", "universal_newlines")
+                           and not (isinstance(k.value, ast.Constant) and k.value.value in (None, False))]
+                if (dotted(c_.func) or "").split(".")[-1] in ("getoutput", "getstatusoutput"):
+                    textual.append("getoutput")
+                rep.add("R06l", f"{f_.qualname}: {norm(c_)[:60]}", not textual, ctx.where(f_, c_),
+                        "" if not textual else f"the program's output is read in text mode ({', '.join(textual)}): CR LF and lone CR become LF, so this connection "
+                        "kind serves other bytes than the ones that hand the program the socket itself", key=f"R06l|{f_.qualname}|{norm(c_)[:50]}")
+    if not n_sub:
+        rep.ok("R06l", "no program is run for a request", "pygopherd/handlers", "", key="R06l|none", nontrivial=False)
     rep.rule("R06d", "menu MIME type mapped to the protocol's listing type; adjust function total", floor=4)
     pb = ctx.cls("protocols.base.BaseGopherProtocol")
     if pb is None:
@@ -245,14 +264,15 @@ def check(ctx, rep):
         # covers every behaviour class (abstract evaluation by the walker, nothing is run)
         import itertools
 
-        param = sn.params[1] if len(sn.params) > 1 else "selector"
+        param = ([p_ for p_ in sn.params if p_ not in ("self", "cls")] or ["selector"])[0]
         problems = set()
         n_cases = 0
         for n in range(0, 5):
             for tup in itertools.product("/a.", repeat=n):
                 arg = "".join(tup)
                 n_cases += 1
-                w = Walker(prog, ctx.resolver)
+                w = Walker(prog, ctx.resolver, exact_loops=True,
+                           inline=lambda fn, t, d: d < 3 and (t.bound_cls is not None or (fn.cls is None and fn.module.name.startswith("pygopherd"))))
                 outs = set()
                 for p in w.run(sn, pb, env={param: Const(arg)}):
                     if p.kind == "return" and p.value.kind == "const" and isinstance(p.value.value, str):
@@ -411,6 +431,10 @@ def _is_normalised(value, func, path, ev, ctx=None, cls=None) -> bool:
             v = defs[v.id]
         else:
             break
+    def is_sn(x):
+        return isinstance(x, ast.Call) and isinstance(x.func, ast.Attribute) and x.func.attr == "slashnormalize" and dotted(x.func.value) in ("self", "cls")
+    if is_sn(v):
+        return True
     if ctx is not None and isinstance(v, ast.Call):
         import copy
 
